@@ -67,7 +67,7 @@ func runP1Big(args []string) error {
 		for i := 0; i < nf; i++ {
 			name := fmt.Sprintf("%02d-%s", i, uniNames[rng.Intn(len(uniNames))])
 			if idx == 14 {
-				name = []string{"report.doc", "report.doc.tmp", "report.doc~", "report.doc.bak"}[i]
+				name = []string{"report.doc", "report.doc.tmp", "REPORT.DOC", "report.doc.bak"}[i] // also a name that differs only in case
 			} else if i > 0 && (i+idx)%6 == 5 {
 				// a protected file whose name is another protected file's name plus a temporary-file / backup suffix
 				name = names[i-1] + []string{".tmp", "~", ".bak", ".new", ".part"}[rng.Intn(5)]
